@@ -19,10 +19,10 @@ Clauses
     eq/order   == != < > <= >= of (x pS.S) against (y pD.D), both ways round, agree with the
                kelvin values whenever the pair is not a floating-point tie
 
-Tolerance (DESIGN 2.9, C10 row): 1e-9 relative to the largest magnitude the temperature takes
+Tolerance: 1e-12 relative (DESIGN 2.9 first said 1e-9; tightened after seed f10-1, DESIGN 9.5) to the largest magnitude the temperature takes
 on any scale that lies on the definitional chain between source and target
 (celsius - kelvin - rankine - fahrenheit), expressed in the unit being compared.  For a pair
-with an offset this is at least 1e-9 x half the zero point; for kelvin <-> rankine it is purely
+with an offset this is at least 1e-12 x half the zero point; for kelvin <-> rankine it is purely
 relative.
 """
 from __future__ import annotations
@@ -57,11 +57,11 @@ ASSUMPTIONS = [
     "a prefix's value is base**exponent with base and exponent read from the library's prefix object once at start-up",
     "the four scales are looked up by their registered names kelvin, celsius, Rankine, fahrenheit",
     "a prefixed scale p.S reads x when S reads x*value(p) (C11's reading of a prefix)",
-    "results within 1e-9 of the largest magnitude on the definitional chain count as 'up to rounding' (so the 2e-14 noise of float-stored zero points in Decimal results is accepted)",
+    "results within 1e-12 of the largest magnitude on the definitional chain count as 'up to rounding' (so the 2e-14 noise of float-stored zero points in Decimal results is accepted)",
     "pairs whose kelvin values differ by less than that tolerance are ties: only absence of exceptions, bool results and 'not (a == b and a < b)' are demanded of them",
 ]
 
-TOL = Fraction(1, 10**9)
+TOL = Fraction(1, 10**12)
 LO, HI = Fraction(1, 10**30), Fraction(10**30)
 
 Z_C = Fraction("273.15")
@@ -374,7 +374,7 @@ def _case(draw):
     def magnitude(t, scale, prefix):
         if draw(st.booleans()):
             k = draw(st.sampled_from(KPOINTS))
-            k = k + draw(st.sampled_from([0, 0, 1, -1, 3])) * draw(st.sampled_from([Fraction(1, 10**6), Fraction(1, 100), Fraction(1), Fraction(17, 3)]))
+            k = k + draw(st.sampled_from([0, 0, 1, -1, 3])) * draw(st.sampled_from([Fraction(1, 10**6), Fraction(1, 100), Fraction(1), Fraction(17, 3), Fraction(1, 10**7), Fraction(1, 10**8), Fraction(1, 10**9)]))
             if draw(st.integers(0, 5)) == 0:
                 k = k * draw(st.sampled_from([Fraction(1000), Fraction(1, 1000), Fraction(10**6)]))
             return physical_lit(t, scale, prefix, k)
